@@ -2,6 +2,8 @@
 
 package pipeline
 
+import "time"
+
 // Verification hooks (see build tag "verif"): without the tag both functions are empty and
 // inlined away; the label constants only name the call sites.
 
@@ -73,3 +75,5 @@ func verifBatchSeq(b *Batch) int64 {
 }
 
 func verifID(x any) int64 { return 0 }
+
+func verifSince(time.Time) int64 { return 0 }
